@@ -234,6 +234,8 @@ def parse_type(s):
             return ('blocks', args()[0])
         if name == 'rag':
             return ('rag', args()[0])
+        if name in ('mat', 'flatmat'):
+            return (name, args()[0])
         if name == 'tuple':
             return ('tuple', args())
         if name == 'opt':
